@@ -57,6 +57,20 @@ NEEDS = {
  "w3-C17-B": ("C17", "evicted nodes recycled through a sync.Pool", "a reader holding a node pointer while it is evicted and refilled"),
  "w3-C18-A": ("C18", "Engine.Reset keeps the table when the size is unchanged", "Hash on (power-of-two MB), Reset, search, Reset, search"),
  "w3-C18-B": ("C18", "eval.Random draws from the process-wide math/rand source", "noise on + another noisy engine created or searching in between"),
+ "w4-C04-A": ("C04", "movetime expiry channel made unbuffered (non-blocking send drops it unless the loop sits in its select)", "go movetime on an engine without depth limit, the timer firing while the loop is not in its select"),
+ "w4-C04-B": ("C04", "go only calls ensureInactive if the driver's active flag is set", "a go whose search ended by itself and was answered, followed by another go with nothing in between (Analyze: search already active -> driver exits)"),
+ "w4-C10-A": ("C10", "setoption name Hash re-sets the current position through Reset(Position())", "position with moves, setoption Hash in mid-game, then an extended or repeated position (history gone, FEN identical)"),
+ "w4-C10-B": ("C10", "Engine.Move refuses moves once the board carries a drawn result", "a move list that continues after a third repetition / clock 100 / insufficient material"),
+ "w4-C11-A": ("C11", "WriteLimited forwards ply and depth in the wrong order", "min-depth table wrapper + a sequence of searches sharing it (entries labelled with the game ply)"),
+ "w4-C11-B": ("C11", "incremental hash treats a capturing promotion like a plain capture", "any table + a position where an under-promotion by capture beats the queen promotion"),
+ "w4-C12-A": ("C12", "extra cancellation poll in the move loop; '!cancelled' dropped from the interior table write", "halt first visible while the LAST move of a node is searched, after an earlier move raised alpha"),
+ "w4-C12-B": ("C12", "cancelled quiescence returns before PopMove", "quiescence leaf + halt seen at least one explored capture below the quiescence root"),
+ "w4-C15-A": ("C15", "any mate score ends the analysis, even one beyond the searched depth", "an engine whose leaf search sees past the nominal depth (TUROCHAMP quiescence) on a position with a mate just beyond it"),
+ "w4-C15-B": ("C15", "Engine.Analyze treats an explicit depth limit 0 like 'not set'", "engine with a non-zero default depth + request DepthLimit=Some(0)"),
+ "w4-C16-A": ("C16", "ensureInactive halts before clearing the active flag", "a running finite search superseded without stop, the forwarder's CAS landing before the flag is cleared"),
+ "w4-C16-B": ("C16", "Handle.Halt takes h.mu before waiting for the search goroutine", "a halt landing while the running iteration completes normally (search blocks on h.mu, Halt waits for it: deadlock)"),
+ "w4-C18-A": ("C18", "AlphaBeta.Search reports halted only if the score is invalid", "a halt arriving mid-tree in an iteration of depth >= 2 (partial result published as a finished depth)"),
+ "w4-C18-B": ("C18", "Fork shares the head node + Engine.Move halts after pushing", "Analyze, then Engine.Move with no Halt in between while the search is inside the tree"),
 }
 def main():
     rows=[]
